@@ -32,11 +32,16 @@ Call == /\ Is("Call") /\ Ev.peer
 ConcCall == /\ Is("ConcCall")
             /\ bad' = bad \cup (IF ~Ev.peer /\ (Ev.result = "ok" \/ Ev.got_share) THEN {<<"nonpeer", l, Ev.msg, Ev.result>>} ELSE {})
             /\ UNCHANGED st
+\* C16 "shares go to their owner": a process service sent a key-generation message (a share) to a name:port that is not the one its
+\* configuration gives for that identifier
+Misdelivery == /\ Is("Misdelivery")
+               /\ bad' = bad \cup {<<"nonpeer", l, "share sent to", Ev.name>>}
+               /\ UNCHANGED st
 Exists == /\ Is("Exists")
           /\ bad' = IF st[Ev.account].exists = Ev.exists THEN bad ELSE bad \cup {<<"exists", l, Ev.account>>}
           /\ UNCHANGED st
-Other == l <= Len(Trace) /\ Ev.ev \notin {"Begin", "Call", "ConcCall", "Exists"} /\ l' = l + 1 /\ UNCHANGED <<st, bad>>
-Next == Begin \/ Call \/ NonPeerCall \/ ConcCall \/ Exists \/ Other
+Other == l <= Len(Trace) /\ Ev.ev \notin {"Begin", "Call", "ConcCall", "Misdelivery", "Exists"} /\ l' = l + 1 /\ UNCHANGED <<st, bad>>
+Next == Begin \/ Call \/ NonPeerCall \/ ConcCall \/ Misdelivery \/ Exists \/ Other
 Spec == Init /\ [][Next]_vars
 HighWater == TLCSet(1, IF l > TLCGet(1) THEN l ELSE TLCGet(1))
 Accepted == TLCGet(1) = Len(Trace) + 1
